@@ -168,5 +168,23 @@ def readCheckpoint {σ : Type} (crc : Bytes → Nat) (de : Bytes → Option σ) 
           | none => .error .ser
           | some s => .ok s
 
+/-! ## gossip frames: `GossipMessage::{serialize,deserialize}` = serde_json over derived impls
+
+  serde_json is not modelled.  The gossip codec is an abstract `ser`/`de` pair like the storage
+  payload codecs; a frame is the serialised message itself (no header, no checksum).  What the
+  property claims for it is the round trip, i.e. the law `de (ser m) = some m`; that law is an
+  explicit obligation (`Lawful`) which the correspondence checks on every run (`g` lines of the
+  C14 harness: every delta through every message variant, payload bytes compared). -/
+
+structure SerDe (μ : Type) where
+  ser : μ → Bytes
+  de : Bytes → Option μ
+
+/-- the round-trip obligation for one message -/
+def SerDe.Lawful {μ : Type} (c : SerDe μ) (m : μ) : Prop := c.de (c.ser m) = some m
+
+/-- what a peer makes of a gossip frame sent for `m` -/
+def gossipDeliver {μ : Type} (c : SerDe μ) (m : μ) : Option μ := c.de (c.ser m)
+
 end Codec
 end RedisVerif
